@@ -14,10 +14,9 @@ NOT_DECIDED = ('unification order, occurs check, principality, recovery of the o
 ASSUMPTIONS = ['STVar names starting with _t are reserved for inference (is_internal_type)']
 
 # confirmed exception to U1: (function, store text) -> reason
-U1_EXEMPT = {
-    ('type_infer', 't_head.T = context.ctxt.defs[t_head.name]'):
-        'the head constant of a definition being parsed takes its declared type from the context',
-}
+# confirmed exception, by what is stored (whatever the names of the locals): the value comes from the table of definitions being parsed
+U1_EXEMPT_SOURCE = 'context.ctxt.defs'
+U1_EXEMPT_REASON = 'the head constant of a definition being parsed takes its declared type from the context'
 
 
 def _is_none_edges(cfg, recv, attr):
@@ -32,17 +31,25 @@ def _is_none_edges(cfg, recv, attr):
 
 
 def rule_u1(repo):
-    res = RuleResult('C08.U1', 'a type annotation already present on the term is never overwritten by inference', floor=8)
-    for qual in ('type_infer', 'type_infer.<locals>.infer'):
-        f = repo.func(INFER, qual)
+    res = RuleResult('C08.U1', 'a type annotation already present on the term is never overwritten by inference', floor=4)
+    top = repo.func(INFER, 'type_infer')
+    funcs = [top]
+    todo = [top]
+    while todo:
+        g = todo.pop()
+        for h in g.nested.values():
+            funcs.append(h)
+            todo.append(h)
+    for f in funcs:
+        qual = f.qualname
         cfg = cfg_of(f.node)
+        flow = flow_of(f.node)
         for n in cfg.stmt_nodes(ast.Assign):
             for t in n.ast.targets:
                 if isinstance(t, ast.Attribute) and t.attr in ('T', 'var_T') and isinstance(t.value, ast.Name):
                     key = '%s :: %s :: store(%s)@%s' % (INFER, qual, src(t), src(n.ast.value, 40))
-                    ex = U1_EXEMPT.get((qual, src(n.ast, 200)))
-                    if ex:
-                        res.add(key, True, 'confirmed exception: ' + ex, '%s:%d' % (INFER, n.lineno), nontrivial=False)
+                    if any(p.startswith(U1_EXEMPT_SOURCE) for p in flow.resolve(n.ast.value)):
+                        res.add(key, True, 'confirmed exception: ' + U1_EXEMPT_REASON, '%s:%d' % (INFER, n.lineno), nontrivial=False)
                         continue
                     edges = _is_none_edges(cfg, t.value.id, t.attr)
                     ok = bool(edges) and cfg.path_avoiding(n, skip_edges=edges) is None
@@ -58,7 +65,8 @@ def rule_u2(repo):
     need('forbid_internal' in f.params(), 'type_infer has no forbid_internal parameter')
     fi_tests = [n for n in cfg.test_nodes() if is_name(n.ast, 'forbid_internal')]
     un_tests = [n for n in cfg.test_nodes() if (lambda cp: cp and cp[0] is ast.Gt and isinstance(cp[1], ast.Call) and
-                                                call_name(cp[1]) == 'len' and is_name(cp[1].args[0], 'unspecified'))(compare_parts(n.ast))]
+                                                call_name(cp[1]) == 'len' and is_name(cp[1].args[0], 'unspecified'))(compare_parts(n.ast)) or
+                is_name(n.ast, 'unspecified')]
     ok = bool(fi_tests) and bool(un_tests) and cfg.path_avoiding(
         cfg.exit, skip_edges={(n.id, 'false') for n in fi_tests} | {(n.id, 'false') for n in un_tests}) is None
     res.add('%s :: type_infer :: unspecified-raises' % INFER, ok,
@@ -71,6 +79,10 @@ def rule_u2(repo):
             for c in ast.walk(n):
                 if isinstance(c, ast.Call) and call_attr(c) == 'append' and path_of(c.func.value) == 'unspecified':
                     ok2 = True
+        # the same as a comprehension
+        if isinstance(n, ast.Assign) and any(is_name(t, 'unspecified') for t in n.targets) and isinstance(n.value, (ast.ListComp, ast.GeneratorExp)) and \
+                any(isinstance(g.iter, ast.Call) and call_attr(g.iter) == 'items' and path_of(g.iter.func.value) == 'tyinst' for g in n.value.generators):
+            ok2 = True
     res.add('%s :: type_infer :: unspecified-collected' % INFER, ok2,
             'unresolved internal variables are collected from the final substitution' if ok2 else
             'the list of unspecified internal variables is no longer computed from tyinst', f.loc, nontrivial=False)
@@ -116,19 +128,40 @@ def rule_u3(repo):
     res = RuleResult('C08.U3', 'a variable gets one type: a freshly invented type is recorded for later occurrences', floor=2)
     f = repo.func(INFER, 'type_infer.<locals>.infer')
     cfg = cfg_of(f.node)
+    top = repo.func(INFER, 'type_infer')
+
+    def discipline(cfg, region, table, subj):
+        fresh = [n for n in cfg.stmt_nodes(ast.Assign) if n.id in region and isinstance(n.ast.value, ast.Call) and
+                 call_name(n.ast.value) == 'new_type' and any(path_of(t) == subj + '.T' for t in n.ast.targets)]
+        records = [n for n in cfg.stmt_nodes(ast.Assign) if n.id in region and any(
+            isinstance(t, ast.Subscript) and is_name(t.value, table) and path_of(t.slice) == subj + '.name' for t in n.ast.targets) and
+            path_of(n.ast.value) == subj + '.T']
+        lookups = [n for n in cfg.stmt_nodes(ast.Assign) if n.id in region and isinstance(n.ast.value, ast.Subscript) and
+                   is_name(n.ast.value.value, table) and any(path_of(t) == subj + '.T' for t in n.ast.targets)]
+        if not fresh:
+            return None
+        return bool(records) and bool(lookups) and all(
+            cfg.exit.id not in cfg.reach_from([b for b, _l in fr.succ], skip_nodes=records) for fr in fresh)
     for kind, table in (('is_var', 'incr_ctxt'), ('is_svar', 'incr_sctxt')):
         tests = [n for n in cfg.test_nodes() if isinstance(n.ast, ast.Call) and call_attr(n.ast) == kind and not n.ast.args]
         need(tests, 'type_infer.infer: branch %s not found' % kind)
-        region = cfg.reach_from([b for b, l in tests[0].succ if l == 'true'])
-        fresh = [n for n in cfg.stmt_nodes(ast.Assign) if n.id in region and isinstance(n.ast.value, ast.Call) and
-                 call_name(n.ast.value) == 'new_type' and any(path_of(t) == 't.T' for t in n.ast.targets)]
-        records = [n for n in cfg.stmt_nodes(ast.Assign) if n.id in region and any(
-            isinstance(t, ast.Subscript) and is_name(t.value, table) and path_of(t.slice) == 't.name' for t in n.ast.targets) and
-            path_of(n.ast.value) == 't.T']
-        lookups = [n for n in cfg.stmt_nodes(ast.Assign) if n.id in region and isinstance(n.ast.value, ast.Subscript) and
-                   is_name(n.ast.value.value, table) and any(path_of(t) == 't.T' for t in n.ast.targets)]
-        ok = bool(fresh) and bool(records) and bool(lookups) and all(
-            cfg.exit.id not in cfg.reach_from([b for b, _l in fr.succ], skip_nodes=records) for fr in fresh)
+        region = cfg.reach_from([b for b, l in tests[0].succ if l == 'true'], skip_nodes=[t for t in cfg.test_nodes() if t is not tests[0] and
+                                                                                              isinstance(t.ast, ast.Call) and (call_attr(t.ast) or '').startswith('is_')])
+        ok = discipline(cfg, region, table, 't')
+        if ok is None:
+            # the branch hands the term and the table to a helper: the helper keeps the discipline for its parameter
+            ok = False
+            for n in cfg.nodes:
+                if n.id not in region or n.ast is None:
+                    continue
+                for c in ast.walk(n.ast) if not isinstance(n.ast, (ast.If, ast.For, ast.While, ast.Try)) else []:
+                    if isinstance(c, ast.Call) and isinstance(c.func, ast.Name) and c.func.id in top.nested and any(is_name(a, table) for a in c.args) and c.args and is_name(c.args[0], 't'):
+                        h = top.nested[c.func.id]
+                        hp = h.params()
+                        tparam = hp[[i for i, a in enumerate(c.args) if is_name(a, table)][0]]
+                        hcfg = cfg_of(h.node)
+                        r = discipline(hcfg, hcfg.reach_from([hcfg.entry]), tparam, hp[0])
+                        ok = bool(r)
         res.add('%s :: type_infer.infer :: %s :: recorded-in(%s)' % (INFER, kind, table), ok,
                 'new type stored in %s[t.name] and looked up for later occurrences' % table if ok else
                 'a fresh type for a variable is not recorded (or never looked up): two occurrences of one variable can get different types',
